@@ -1,4 +1,5 @@
 import SecpZkp.Model.Ecdsa
+import SecpZkp.Model.Heapsort
 /-
   Secret/public key operations of `secp256k1.c` and the extrakeys module.
   A secret key is its 32-byte string; a keypair object is (32 secret bytes, public point), the
@@ -140,6 +141,43 @@ def keypairXonlyTweakAdd (kp : Keypair) (tweak : Bytes) : Ret Keypair :=
   match Ecdsa.seckeyTweakAddHelper sk' tweak, Ecdsa.pubkeyTweakAddHelper pk' tweak with
   | some s, some p => if ok then ⟨1, ⟨Bytes.be32 s, p⟩, ill⟩ else ⟨0, Keypair.zero, ill⟩
   | _, _ => ⟨0, Keypair.zero, ill⟩
+
+/-- `secp256k1_ec_pubkey_sort`: heap sort of the pointer array by `secp256k1_ec_pubkey_cmp`. -/
+def pubkeySort (pks : List Pt) : List Pt :=
+  (Heapsort.hsort (fun a b => Bytes.cmp (cmpKey a) (cmpKey b)) pks.toArray).toList
+
+/-! ### chains of mixed operations, applied to a secret key and to its public key -/
+
+inductive ChainOp where
+  | add (t : Bytes)      -- seckey_tweak_add / pubkey_tweak_add
+  | mul (t : Bytes)      -- seckey_tweak_mul / pubkey_tweak_mul
+  | neg                  -- seckey_negate / pubkey_negate
+  | xadd (t : Bytes)     -- keypair_xonly_tweak_add / xonly_from_pubkey + xonly_tweak_add
+
+/-- one step on the secret side -/
+def chainSec (sk : Bytes) : ChainOp → Option Bytes
+  | .add t => let (r, o) := seckeyTweakAdd sk t; if r = 1 then some o else none
+  | .mul t => let (r, o) := seckeyTweakMul sk t; if r = 1 then some o else none
+  | .neg => let (r, o) := seckeyNegate sk; if r = 1 then some o else none
+  | .xadd t =>
+    let (r, kp) := keypairCreate sk
+    if r = 0 then none else
+    let r2 := keypairXonlyTweakAdd kp t
+    if r2.ret = 1 then some r2.out.sk else none
+
+/-- one step on the public side -/
+def chainPub (pk : Pt) : ChainOp → Option Pt
+  | .add t => let r := pubkeyTweakAdd pk t; if r.ret = 1 then some r.out else none
+  | .mul t => let r := pubkeyTweakMul pk t; if r.ret = 1 then some r.out else none
+  | .neg => let r := pubkeyNegate pk; if r.ret = 1 then some r.out else none
+  | .xadd t =>
+    let r := xonlyFromPubkey pk
+    if r.ret = 0 then none else
+    let r2 := xonlyTweakAdd r.out.1 t
+    if r2.ret = 1 then some r2.out else none
+
+def chainSecAll (sk : Bytes) (ops : List ChainOp) : Option Bytes := ops.foldlM chainSec sk
+def chainPubAll (pk : Pt) (ops : List ChainOp) : Option Pt := ops.foldlM chainPub pk
 
 end Keys
 end SecpZkp
